@@ -10,7 +10,10 @@ Facts (all re-read from the tree under test on every run):
   checksNotInBackups     the backup launch is guarded by `task not in backups and should_launch_backup(...)`
   defaultRetries         default of threads_create_futures_func(retries=) and of kwargs.pop("retries", ·)
   retryExtraAttempts     the `1` in stop_after_attempt(retries + 1); reraise=True
-  processesHaveRetry     whether processes_create_futures_func wraps the function in a Retrying
+  processesHaveRetry     whether the processes executor retries too (processes_create_futures_func submits a function that
+                         wraps the call in a Retrying); procDefaultRetries / procRetryExtraAttempts / procRetriesZeroSkipsWrapper
+                         are the same three facts read from that wrapper; processesPopRetries: `retries` is popped from kwargs
+  emptyFirstBatchOk      the first batch is taken with `next(input_batches, <empty>)` (True) or `next(input_batches)` (False)
 """
 from __future__ import annotations
 
@@ -84,6 +87,26 @@ def facts(repo):
         raise ExtractError(f"{rel}: asyncio.wait no longer uses return_when=FIRST_COMPLETED")
     put("waitTimeout", "Nat", str(timeout), rel + ":async_map_unordered asyncio.wait(timeout=)")
 
+    # first batch: `inputs = next(input_batches)` or `inputs = next(input_batches, ())`
+    first = None
+    for node in fn.body:
+        for sub in ast.walk(node):
+            if isinstance(sub, ast.Assign) and len(sub.targets) == 1 and _src(sub.targets[0]) == "inputs" \
+                    and isinstance(sub.value, ast.Call) and _src(sub.value.func) == "next" \
+                    and sub.value.args and _src(sub.value.args[0]) == "input_batches" and first is None:
+                if len(sub.value.args) == 1:
+                    first = False
+                elif len(sub.value.args) == 2 and isinstance(sub.value.args[1], (ast.Tuple, ast.List)) \
+                        and not sub.value.args[1].elts:
+                    first = True
+                else:
+                    raise ExtractError(f"{rel}: first batch taken with {_src(sub.value)} — not modelled")
+        if isinstance(node, ast.While):
+            break
+    if first is None:
+        raise ExtractError(f"{rel}: `inputs = next(input_batches…)` before the loop not found")
+    put("emptyFirstBatchOk", "Bool", b(first), rel + ":async_map_unordered first batch")
+
     # batch refill: the last statement that touches start_times inside `if batch_size is not None and len(pending) < batch_size`
     refill = None
     for node in ast.walk(fn):
@@ -134,30 +157,65 @@ def facts(repo):
     if pops and any(p != d for p in pops):
         raise ExtractError(f"{rel}: retries defaults disagree: {d} vs {pops}")
     put("defaultRetries", "Nat", str(d), rel + ":threads_create_futures_func(retries=)")
-    extra = None
-    reraise = False
-    zero_skips = False
-    for node in ast.walk(fn):
-        if isinstance(node, ast.Call) and _src(node.func) == "stop_after_attempt" and len(node.args) == 1:
-            a = node.args[0]
-            if isinstance(a, ast.Name) and a.id == "retries":
-                extra = 0
-            elif isinstance(a, ast.BinOp) and isinstance(a.op, ast.Add) and _src(a.left) == "retries" \
-                    and isinstance(a.right, ast.Constant) and isinstance(a.right.value, int):
-                extra = a.right.value
-            elif isinstance(a, ast.BinOp) and isinstance(a.op, ast.Sub) and _src(a.left) == "retries":
-                raise ExtractError(f"{rel}: stop_after_attempt({_src(a)}) — fewer attempts than retries")
-        if isinstance(node, ast.Call) and _src(node.func) == "Retrying":
-            reraise = any(kw.arg == "reraise" and isinstance(kw.value, ast.Constant) and kw.value.value is True
-                          for kw in node.keywords)
-        if isinstance(node, ast.If) and _src(node.test) == "retries != 0":
-            zero_skips = True
-    if extra is None or extra < 0:
-        raise ExtractError(f"{rel}: stop_after_attempt(retries + <const>) not found")
-    if not reraise:
-        raise ExtractError(f"{rel}: Retrying(reraise=True, ...) not found")
+    def policy(fnode, where):
+        """(extra, zero_skips) of the Retrying built inside `fnode`"""
+        extra = None
+        reraise = False
+        zero_skips = False
+        for node in ast.walk(fnode):
+            if isinstance(node, ast.Call) and _src(node.func) == "stop_after_attempt" and len(node.args) == 1:
+                a = node.args[0]
+                if isinstance(a, ast.Name) and a.id == "retries":
+                    extra = 0
+                elif isinstance(a, ast.BinOp) and isinstance(a.op, ast.Add) and _src(a.left) == "retries" \
+                        and isinstance(a.right, ast.Constant) and isinstance(a.right.value, int):
+                    extra = a.right.value
+                elif isinstance(a, ast.BinOp) and isinstance(a.op, ast.Sub) and _src(a.left) == "retries":
+                    raise ExtractError(f"{rel}:{where}: stop_after_attempt({_src(a)}) — fewer attempts than retries")
+            if isinstance(node, ast.Call) and _src(node.func) == "Retrying":
+                reraise = any(kw.arg == "reraise" and isinstance(kw.value, ast.Constant) and kw.value.value is True
+                              for kw in node.keywords)
+            if isinstance(node, ast.If) and _src(node.test) == "retries != 0":
+                zero_skips = True
+        if extra is None or extra < 0:
+            raise ExtractError(f"{rel}:{where}: stop_after_attempt(retries + <const>) not found")
+        if not reraise:
+            raise ExtractError(f"{rel}:{where}: Retrying(reraise=True, ...) not found")
+        return extra, zero_skips
+
+    extra, zero_skips = policy(fn, "threads_create_futures_func")
     put("retryExtraAttempts", "Nat", str(extra), rel + ":threads_create_futures_func stop_after_attempt(retries + ·)")
     put("retriesZeroSkipsWrapper", "Bool", b(zero_skips), rel + ":threads_create_futures_func `if retries != 0`")
+    # processes: processes_create_futures_func(…, retries=d) submits <wrapper>(pickled f, pickled input, retries, …);
+    # the wrapper builds the Retrying inside the worker
     fnp = _func(t, "processes_create_futures_func", rel)
-    put("processesHaveRetry", "Bool", b("Retrying" in _src(fnp)), rel + ":processes_create_futures_func")
+    wrapper = None
+    for node in ast.walk(fnp):
+        if isinstance(node, ast.Call) and _src(node.func) == "concurrent_executor.submit" and node.args:
+            target = _src(node.args[0])
+            for cand in t.body:
+                if isinstance(cand, ast.FunctionDef) and cand.name == target and "Retrying" in _src(cand):
+                    if "retries" in [_src(a) for a in node.args[1:]]:
+                        wrapper = cand
+    pops_everywhere = True
+    for cls in t.body:
+        if isinstance(cls, ast.ClassDef) and cls.name == "ProcessesExecutor":
+            pops_everywhere = any(isinstance(n, ast.Call) and _src(n.func) == "kwargs.pop" and n.args
+                                  and isinstance(n.args[0], ast.Constant) and n.args[0].value == "retries"
+                                  for n in ast.walk(cls))
+    put("processesPopRetries", "Bool", b(pops_everywhere), rel + ":ProcessesExecutor._async_execute_dag kwargs.pop('retries', ·)")
+    if wrapper is None:
+        put("processesHaveRetry", "Bool", "false", rel + ":processes_create_futures_func")
+        put("procDefaultRetries", "Nat", "0", rel + ":processes_create_futures_func (no retry wrapper)")
+        put("procRetryExtraAttempts", "Nat", "0", rel + ":processes_create_futures_func (no retry wrapper)")
+        put("procRetriesZeroSkipsWrapper", "Bool", "false", rel + ":processes_create_futures_func (no retry wrapper)")
+    else:
+        pd = _default(fnp, "retries", rel)
+        if not isinstance(pd, int) or isinstance(pd, bool) or pd < 0:
+            raise ExtractError(f"{rel}: processes retries default {pd!r}")
+        pextra, pzero = policy(wrapper, wrapper.name)
+        put("processesHaveRetry", "Bool", "true", rel + ":processes_create_futures_func -> " + wrapper.name)
+        put("procDefaultRetries", "Nat", str(pd), rel + ":processes_create_futures_func(retries=)")
+        put("procRetryExtraAttempts", "Nat", str(pextra), rel + ":" + wrapper.name + " stop_after_attempt(retries + ·)")
+        put("procRetriesZeroSkipsWrapper", "Bool", b(pzero), rel + ":" + wrapper.name + " `if retries != 0`")
     return out
